@@ -495,12 +495,13 @@ def configs():
     add("CircuitMPS[nonlocal]", "CircuitMPS", lambda N: qtn.CircuitMPS(N, gate_contract="nonlocal"), {"3q", "raw3", "SWAP", "ctrl", "ctrl2"}, mps=True)
     add("CircuitMPS[convert_eager=False]", "CircuitMPS", lambda N: qtn.CircuitMPS(N, convert_eager=False, dtype="complex128"),
         {"3q", "raw3", "SWAP", "ctrl", "ctrl2"}, mps=True)
-    add("CircuitPermMPS", "CircuitPermMPS", lambda N: qtn.CircuitPermMPS(N), set(), mps=True, perm=True)
+    add("CircuitPermMPS", "CircuitPermMPS", lambda N: qtn.CircuitPermMPS(N), {"SWAP"}, mps=True, perm=True)
     add("CircuitPermMPS[convert_eager=False]", "CircuitPermMPS", lambda N: qtn.CircuitPermMPS(N, convert_eager=False, dtype="complex128"),
-        set(), mps=True, perm=True)
-    add("CircuitPermMPS[auto-mps]", "CircuitPermMPS", lambda N: qtn.CircuitPermMPS(N, gate_contract="auto-mps"), {"3q", "raw3"}, mps=True, perm=True)
+        {"SWAP"}, mps=True, perm=True)
+    add("CircuitPermMPS[auto-mps]", "CircuitPermMPS", lambda N: qtn.CircuitPermMPS(N, gate_contract="auto-mps"),
+        {"3q", "raw3", "SWAP", "ctrl", "ctrl2"}, mps=True, perm=True)
     add("CircuitPermMPS[auto-mps,cutoff=0]", "CircuitPermMPS", lambda N: qtn.CircuitPermMPS(N, gate_contract="auto-mps", cutoff=0.0),
-        {"3q", "raw3"}, mps=True, perm=True, tol=TOL)
+        {"3q", "raw3", "SWAP", "ctrl", "ctrl2"}, mps=True, perm=True, tol=TOL)
     add("CircuitMPSLazy", "CircuitMPSLazy", lambda N: qtn.CircuitMPSLazy(N), {"3q", "raw3", "SWAP", "ctrl", "ctrl2"}, mps=True, lazy=True)
     add("CircuitMPSLazy[every=1,direct]", "CircuitMPSLazy", lambda N: qtn.CircuitMPSLazy(N, compress_every=1, method="direct"),
         {"3q", "raw3", "SWAP", "ctrl", "ctrl2"}, mps=True, lazy=True)
@@ -1472,6 +1473,9 @@ def nll(xs):
 
 
 def perm_stage(ctx):
+    """tracker correspondence: uncontrolled gates on 1-3 qubits, uncontrolled SWAPs (relabelling) and controlled gates
+    (auto-mps only: swap+split rejects them before anything happens); observed: circ.qubits after every gate, the
+    target / control sites CircuitPermMPS hands on (gate recorded by the simulator), the route of two-qubit gates"""
     import quimb.tensor as qtn
     from quimb.tensor.tn1d.core import MatrixProductState
 
@@ -1483,50 +1487,70 @@ def perm_stage(ctx):
         seen_where.append((tuple(int(x) for x in where), kw.get("swap_back", True)))
         return real(self, G, where, *a, **kw)
 
+    def glit(swap, ctrl, qs):
+        return f"{{| pg_swap := {blit(swap)}; pg_ctrl := {natlist(ctrl)}; pg_qubits := {natlist(qs)} |}}"
+
     cases, info = [], {}
     MatrixProductState.gate_with_auto_swap = spy
     try:
         for cid in range(1, ctx.n(60, 2500) + 1):
             N = rng.randint(2, 6)
-            contract = rng.choice(["swap+split", "swap+split", "auto-mps"])
-            circ = qtn.CircuitPermMPS(N, gate_contract=contract)
-            gates, trace, sites = [], [], []
+            contract = rng.choice(["swap+split", "swap+split", "auto-mps", "auto-mps"])
+            circ = qtn.CircuitPermMPS(N, gate_contract=contract, **({"cutoff": 0.0} if rng.random() < 0.3 else {}))
+            gates, glits, trace = [], [], []
             nonadj = False
             for _ in range(rng.randint(1, 10)):
                 r = rng.random()
-                if r < 0.3:
+                ctrl, swap = [], False
+                if r < 0.25:
                     qs = [rng.randrange(N)]
-                    spec = (rng.choice(["H", "T", "X"]), *qs)
-                elif r < 0.9 or N < 3 or contract != "auto-mps":
+                    label = rng.choice(["H", "T", "X"])
+                elif r < 0.60:
                     qs = rng.sample(range(N), 2)
-                    spec = (rng.choice(["CNOT", "CZ", "ISWAP"]), *qs)
-                else:
+                    label = rng.choice(["CNOT", "CZ", "ISWAP"])
+                elif r < 0.78:
+                    qs = rng.sample(range(N), 2)
+                    label, swap = "SWAP", True
+                elif r < 0.86 and N >= 3 and contract == "auto-mps":
                     qs = rng.sample(range(N), 3)
-                    spec = ("CCZ", *qs)
+                    label = "CCZ"
+                elif contract == "auto-mps" and N >= 3:
+                    nc = rng.randint(1, min(2, N - 2))
+                    nt = rng.randint(1, 2)
+                    allq = rng.sample(range(N), nc + nt)
+                    ctrl, qs = allq[:nc], allq[nc:]
+                    label = rng.choice(["X", "Z"]) if nt == 1 else rng.choice(["CZ", "SWAP", "ISWAP"])
+                    swap = label == "SWAP"
+                else:
+                    qs = [rng.randrange(N)]
+                    label = "Y"
                 seen_where.clear()
                 pos = [circ.qubits.index(q) for q in qs]
                 try:
-                    circ.apply_gate(*spec)
+                    circ.apply_gate(label, *qs, **({"controls": ctrl} if ctrl else {}))
                 except Exception as e:
-                    ctx.violation("CircuitPermMPS:gate:unexpected_rejection", f"{type(e).__name__}: {e}",
-                                  {"N": N, "contract": contract, "gates": gates + [qs]})
+                    ctx.violation("CircuitPermMPS:gate:unexpected_rejection", f"{label} {qs} controls {ctrl}: {type(e).__name__}: {e}",
+                                  {"N": N, "contract": contract, "gates": gates + [[label, qs, ctrl]]})
                     break
-                if len(qs) == 2 and abs(pos[0] - pos[1]) > 1:
+                if len(qs) == 2 and not ctrl and abs(pos[0] - pos[1]) > 1:
                     nonadj = True
-                gates.append(qs)
-                trace.append(list(circ.qubits))
-                if len(qs) == 2:
-                    if len(seen_where) != 1 or seen_where[0][1] is not False:
-                        ctx.violation("CircuitPermMPS:two_qubit_gate:swap_back_not_disabled",
-                                      "two-qubit gate was not applied through gate_with_auto_swap(swap_back=False)",
-                                      {"N": N, "gates": gates, "seen": seen_where})
-                    sites.append(list(seen_where[0][0]) if seen_where else [])
-                else:
-                    sites.append(pos)
-            ctx.count(("perm", N, contract, tuple(map(tuple, gates))), nonadj)
+                rec = circ.gates[-1]  # the gate as CircuitPermMPS recorded / handed it on: physical targets and controls
+                gates.append([label, qs, ctrl])
+                glits.append(glit(swap, ctrl, qs))
+                trace.append((list(circ.qubits), [int(x) for x in rec.qubits], [int(x) for x in (rec.controls or ())]))
+                tracked = len(qs) == 2 and not ctrl and not swap
+                if tracked and (len(seen_where) != 1 or seen_where[0][1] is not False or list(seen_where[0][0]) != [int(x) for x in rec.qubits]):
+                    ctx.violation("CircuitPermMPS:two_qubit_gate:swap_back_not_disabled",
+                                  "an uncontrolled two-qubit gate was not applied through gate_with_auto_swap(swap_back=False) on its physical sites",
+                                  {"N": N, "gates": gates, "seen": seen_where})
+                if not tracked and any(sb is False for _, sb in seen_where):
+                    ctx.violation("CircuitPermMPS:untracked_gate:swap_back_forwarded",
+                                  "swap_back=False was forwarded for a gate the tracker does not follow", {"N": N, "gates": gates})
+            ctx.count(("perm", N, contract, json.dumps(gates)), nonadj or any(g[0] == "SWAP" or g[2] for g in gates))
             ctx.bump("perm_program")
-            info[cid] = {"N": N, "contract": contract, "gates": gates, "impl_qubits_trace": trace, "impl_sites": sites}
-            cases.append((cid, f"perm_check {natlit(N)} {nll(gates)} {nll(trace)} {nll(sites)}"))
+            info[cid] = {"N": N, "contract": contract, "gates": gates, "impl_trace(qubits, target sites, control sites)": trace}
+            tl = "[" + "; ".join(f"({natlist(t[0])}, {natlist(t[1])}, {natlist(t[2])})" for t in trace) + "]"
+            cases.append((cid, f"perm_check_g {natlit(N)} [{'; '.join(glits)}] {tl}"))
             if cid == 1:
                 ctx.sample({"stream": "tracker", **info[cid]})
     finally:
@@ -1539,8 +1563,8 @@ def _perm_searcher(ctx, failed, info):
         ctx.broken_obligation("correspondence:tracker_model_vs_impl", info[c])
         # searcher: replay the program against the dense reference
         d = info[c]
-        prog = [{"op": "gate", "kind": f"{len(q)}q", "label": {1: "H", 2: "CNOT", 3: "CCZ"}[len(q)], "params": [], "qubits": q, "controls": [],
-                 "parametrize": False, "raw_seed": None, "round": None, "how": "string"} for q in d["gates"]]
+        prog = [{"op": "gate", "kind": "SWAP" if (lab == "SWAP" and not ct) else ("ctrl" if ct else f"{len(q)}q"), "label": lab, "params": [],
+                 "qubits": q, "controls": ct, "parametrize": False, "raw_seed": None, "round": None, "how": "string"} for lab, q, ct in d["gates"]]
         prog.append({"op": "query", "q": "to_dense"})
         cfgname = "CircuitPermMPS" if d["contract"] == "swap+split" else "CircuitPermMPS[auto-mps]"
         try:
@@ -1855,6 +1879,8 @@ CORR_HEADER = (
     "Definition perm_check (N : nat) (gates trace sites : list (list nat)) : bool :=\n"
     "  natll_eqb (perm_trace (seq 0 N) gates) trace && natll_eqb (phys_trace (seq 0 N) gates) sites\n"
     "  && forallb (is_perm_of_range N) trace.\n"
+    "Definition perm_check_g (N : nat) (gates : list pgate) (trace : list (list nat * list nat * list nat)) : bool :=\n"
+    "  triples_eqb (perm_trace_g (seq 0 N) gates) trace && forallb (fun t => is_perm_of_range N (fst (fst t))) trace.\n"
     # cache
     "Definition obs := (list (key * bool) * list key * list key * Z)%type.\n"
     "Definition is_cond (k : key) : bool := match k with KCond _ _ => true | _ => false end.\n"
@@ -1948,7 +1974,7 @@ def run(ctx):
         ctx.extra["partial_run"] = only
     else:
       ctx.check_props([
-        "Base/Sums.vo", "C07/CMat.vo", "C07/GatesGen.vo", "C07/GateProofs.vo", "C07/Model.vo", "C07/Proofs.vo",
+        "Base/Sums.vo", "C07/CMat.vo", "C07/GatesGen.vo", "C07/GateProofs.vo", "C07/Model.vo", "C07/Proofs.vo", "C07/TrackerG.vo",
         "C07/Ctrl.vo", "C07/LightconeModel.vo", "C07/Lightcone.vo", "C07/RecordModel.vo", "C07/Record.vo", "C07/Mutators.vo", "C07/Inventory.vo", "C07/Props.v",
     ])
     PENDING.clear()
